@@ -767,13 +767,8 @@ def engine_traffic(seed, n_requests, real_crypto=False):
                 resp, max_size, ver = E.engine.process_request(copy.deepcopy(msg), cred)
                 rec["response"] = resp
                 rec["response_version"] = ver
-                o = {"results": [{"status": "ok" if bi.result_status.value == enums.ResultStatus.SUCCESS else "fail",
-                                  "op": bi.operation.value.value if bi.operation else None,
-                                  "data": impl_engine.data_of(bi.operation.value, bi.response_payload)
-                                  if bi.result_status.value == enums.ResultStatus.SUCCESS and bi.operation else None}
-                                 for bi in resp.batch_items]}
                 try:
-                    g.observe(line, o)
+                    g.observe(line, observation_of(resp))
                 except Exception:
                     pass
             except exceptions.KmipError as e:
@@ -784,6 +779,23 @@ def engine_traffic(seed, n_requests, real_crypto=False):
     finally:
         E.close()
     return out
+
+
+def observation_of(resp):
+    """what gen_engine.Gen.observe wants to know about a response (so later requests address live objects)"""
+    import impl_engine
+    out = []
+    for bi in resp.batch_items:
+        ok = bi.result_status.value == enums.ResultStatus.SUCCESS
+        d = None
+        if ok and bi.operation is not None:
+            try:
+                d = impl_engine.data_of(bi.operation.value, bi.response_payload)
+            except Exception:
+                d = None
+        out.append({"status": "ok" if ok else "fail", "op": bi.operation.value.value if bi.operation else None,
+                    "data": d})
+    return {"results": out}
 
 
 _CERT = {}
